@@ -132,7 +132,7 @@ class NumpyProducer(ProducerContract):
         c.ensure(mk_bool(len(a['hash_object'].fields['log']) >= 1), 'hash_updates_happened')
 
 
-register(NumpyProducer, 'conversion_utils.py::numpy_producer', ['C01', 'C20', 'C19'], ALL3, modes=('file',))
+register(NumpyProducer, 'conversion_utils.py::numpy_producer', ['C01', 'C20', 'C19', 'C16'], ALL3, modes=('file',))
 
 
 # ---------------------------------------------------------------------------------------------
@@ -301,6 +301,7 @@ class IoThreadFuncModular(IoThreadFunc):
         b0 = a['blockshape'][0]
         ps = a['plane_set_id']
         buf = a['seismic_buffer']
+        L.effect_write(buf)
         buf.fn = lambda idx: MX.src(add(il0, Min(add(mul(b0, ps), idx[0]), sub(nIw, 1))), add(xl0, Min(idx[1], sub(nXw, 1))), Min(idx[2], sub(nZ, 1)))
         buf.fresh_zeros = False
         c.ghost.setdefault('header_rows', []).append(dict(ps=ps, first=mul(b0, ps), count=a['planes_to_read'], store=a['store_headers']))
@@ -373,7 +374,7 @@ class SeismicFileProducer(ProducerContract):
         c.ensure(mk_bool(len(c.ghost.get('header_rows', [])) >= 1), 'plane_sets_filled_through_io_thread_func')
 
 
-register(SeismicFileProducer, 'conversion_utils.py::seismic_file_producer', ['C01', 'C11', 'C20'], ALL3, modes=('file',))
+register(SeismicFileProducer, 'conversion_utils.py::seismic_file_producer', ['C01', 'C11', 'C20', 'C16'], ALL3, modes=('file',))
 
 
 class SelfTestAssumed(Contract):
@@ -503,7 +504,7 @@ class ReadLine(Contract):
 
 
 for _f in (5, 1, 2):
-    fuc(RL_KEY, props=['C01', 'C04', 'C07x'], modular=(_f == 5))(type(f'ReadLine_f{_f}', (ReadLine,), dict(fmt=_f, variant=f'format={_f}')))
+    fuc(RL_KEY, props=['C01', 'C04', 'C07x', 'C20'], modular=(_f == 5))(type(f'ReadLine_f{_f}', (ReadLine,), dict(fmt=_f, variant=f'format={_f}')))
 
 
 # ---------------------------------------------------------------------------------------------
@@ -594,6 +595,7 @@ class IoThreadFunc2dModular(IoThreadFunc2d):
         b1 = a['blockshape'][1]
         g = a['trace_group_id']
         buf = a['seismic_buffer']
+        L.effect_write(buf)
         buf.fn = lambda idx: src2(Min(add(mul(b1, g), idx[0]), sub(nT, 1)), Min(idx[1], sub(nZ, 1)))
         buf.fresh_zeros = False
         c.ghost.setdefault('header_rows', []).append(dict(g=g))
@@ -690,7 +692,7 @@ class SeismicFileProducer2d(ProducerContract):
         c.ensure(mk_bool(len(c.ghost.get('header_rows', [])) >= 1), 'trace_groups_filled_through_io_thread_func_2d')
 
 
-register(SeismicFileProducer2d, 'conversion_utils.py::seismic_file_producer_2d', ['C09', 'C20'], ALL2, modes=('file',))
+register(SeismicFileProducer2d, 'conversion_utils.py::seismic_file_producer_2d', ['C09', 'C20', 'C16'], ALL2, modes=('file',))
 
 
 # ---------------------------------------------------------------------------------------------
@@ -872,6 +874,7 @@ class UnstructuredIoModular(UnstructuredIoThreadFunc):
             ilno = add(G['min_il'], mul(row, G['il_step'])); xlno = add(G['min_xl'], mul(idx[1], G['xl_step']))
             has = And(lt(idx[1], nX), lt(idx[2], nZ), present_at(tr, ilno, xlno))
             return ite_val(has, MX.src(0, tid_of(tr, ilno, xlno), idx[2]), F32Z)
+        L.effect_write(buf)
         buf.fn = fn
         buf.fresh_zeros = False
         c.ghost.setdefault('header_rows', []).append(dict(ps=ps))
